@@ -52,6 +52,31 @@ class C04(Property):
             wrapped = rng.choice([g, gen.wrap("many", g), gen.wrap("optional", g), gen.wrap("hide", g), gen.wrap("hide", gen.wrap("optional", g))])
             opts = gen.options(gen.con(wrapped, gen.flag(names.named())), descr="Ladj")
             return opts
+        if r < 0.19:
+            # titled groups inside titled groups, also through adjacent groups / alternatives / subcommands, with further
+            # titled groups behind them: the help and documentation writers walk the group markers in a loop
+            names = gen.Names(rng)
+            gh = lambda p, t: gen.wrap("group-help", p, d=t)
+            leafs = lambda: rng.choice([gen.flag(names.named(help_p=0.5)), gen.wrap("optional", gen.arg(names.named(help_p=0.5), "V", "string"))])
+            inner = gh(leafs(), "inner title")
+            mid = rng.choice([
+                gen.adj(gen.req_flag(names.named(), "unit"), inner),
+                gen.adj(gen.req_flag(names.named(), "unit"), inner, gen.pos("A", "string")),
+                gen.con(leafs(), inner),
+                gen.alt(gen.req_flag(names.named(), "unit"), inner),
+                inner])
+            mid = rng.choice([mid, gen.wrap("optional", mid), gen.wrap("many", mid)]) if mid["k"] in ("adj",) else mid
+            top = [gh(mid, "outer title")]
+            for _ in range(rng.choice([0, 1, 1, 2])):
+                top.append(gh(leafs(), rng.choice(["later title", "another"])))
+            if rng.random() < 0.3:
+                top.insert(0, leafs())
+            p = gen.con(*top)
+            if rng.random() < 0.3:
+                p = gen.con(gen.flag(names.named()), gen.cmd(names.cmdname(), gen.options(p, descr="Lgs"), help="c"))
+            opts = gen.options(p, descr="Lgg")
+            opts["_argv_pool"] = [b"--help", b"-h", b"--help", b"-x"]
+            return opts
         if r < 0.5:
             opts, names = gen.gen_options(rng, features=("alt", "adj", "cmd", "pos", "grp"), allow_catch=rng.random() < 0.5,
                                           env_p=0.25)
